@@ -1,12 +1,12 @@
 package props
 
 import (
-	"time"
-	"io"
 	"bytes"
 	"fmt"
+	"io"
 	"math/rand"
 	"strings"
+	"time"
 
 	"github.com/IBM/fluent-forward-go/fluent/protocol"
 
